@@ -14,17 +14,17 @@ bind: harness/cert/c11_test.go (built with -race):
             (c) through the real `watch` with a scripted loadFn, refresh 1 s;
       C->S  real TLS handshakes concurrent with set replacement, validated by CertStore_Trace.
 """
-import json, os
+import json, os, random
 from lib import vf
 
-FILES = ["cert/c11_test.go"]
+FILES = ["cert/c11_test.go", "cert/c11_sources_test.go"]
 
 BASE = """SPECIFICATION %(spec)s
 CONSTANTS
   Fold <- MCFold
-  Good = {"A", "B"}
+  Good = %(good)s
   Unusable = %(unusable)s
-  Failing = {"E"}
+  Failing = %(failing)s
   Clients = %(clients)s
   Reqs <- MCReqs
   MaxLoads = %(loads)d
@@ -40,8 +40,9 @@ CHECK_DEADLOCK FALSE
 MC_INV = "TypeOK NoMixture TakesEffect BadKeepsGood RegIsLastGood NoSpin"
 
 
-def cfg(spec, loads=0, hs=0, clients="{}", unusable='{"U1"}', refresh=1, split=False, spin=False, view=False, inv="TypeOK"):
-    return BASE % dict(spec=spec, loads=loads, hs=hs, clients=clients, unusable=unusable, refresh=refresh,
+def cfg(spec, loads=0, hs=0, clients="{}", unusable='{"U1"}', refresh=1, split=False, spin=False, view=False, inv="TypeOK",
+        good='{"A", "B"}', failing='{"E"}'):
+    return BASE % dict(spec=spec, loads=loads, hs=hs, clients=clients, unusable=unusable, refresh=refresh, good=good, failing=failing,
                        split="TRUE" if split else "FALSE", spin="TRUE" if spin else "FALSE",
                        view="VIEW MCView" if view else "", inv=inv)
 
@@ -82,13 +83,56 @@ def generate(ctx):
     watch = os.path.join(ctx.tmp, "c11.watch")
     unusable = ctx.pick('{"U1", "U2"}', '{"U1", "U2", "U3"}')
     w = ctx.tlc("CertStore_MC", cfg_text=cfg("GenWSpec", ctx.pick(4, 5), unusable=unusable,
-                                              inv="TypeOK BadKeepsGood BadNeverPublishes RegIsLastGood NoSpin NoSpinHist"),
+                                              inv=HIST_INV),
                 workers=8, json_sink=watch, timeout=600)
     ctx.log("watcher histories: %d states, %.0fs" % (w.distinct, w.wall))
     if not ctx.need_tlc_ok(w, "CertStore watcher histories"):
         return None
     ctx.cover("watch", states=w.distinct, transitions=w.generated)
     return sel, watch
+
+
+HIST_INV = "TypeOK BadKeepsGood BadNeverPublishes RegIsLastGood NoSpin NoSpinHist"
+
+# the universes of the real-source histories (see CertStore_MC!GenSSpec and harness/cert/c11_sources_test.go)
+SOURCES = (
+    # path source, every content has the same file names: files that are listed but cannot be read abort the load
+    ("path", "path-unreadable", '{"A", "B"}', '{"pem", "unread-c", "unread-p", "foreign", "big"}', "{}"),
+    # path source, a certificate deleted on purpose (As) is a legitimate smaller set; a missing key half is not
+    ("path", "path-shrink", '{"A", "As", "B"}', '{"pem", "nokey", "foreign", "big"}', "{}"),
+    # http source: broken files, files the server does not have / fails on, and an unavailable listing
+    ("http", "http", '{"A", "As", "B"}', '{"pem", "nokey", "file404", "file500"}', '{"list404", "list500", "listgarbage", "down"}'),
+)
+
+
+def generate_sources(ctx):
+    """complete histories for the real sources: all of `loads` loads, sampled by seed down to `cap` per universe"""
+    loads, cap = ctx.pick((3, 90), (3, 100000))
+    rnd = random.Random(ctx.seed)
+    out = {"path": os.path.join(ctx.tmp, "c11.src.path"), "http": os.path.join(ctx.tmp, "c11.src.http")}
+    counts = {}
+    for source, name, good, unusable, failing in SOURCES:
+        runs = [(loads, cap)]
+        if ctx.thorough:
+            runs.append((4, 250))
+        for n, c in runs:
+            tmp = os.path.join(ctx.tmp, "c11.src.%s.%d" % (name, n))
+            g = ctx.tlc("CertStore_MC", cfg_text=cfg("GenSSpec", n, unusable=unusable, good=good, failing=failing, inv=HIST_INV),
+                        workers=8, json_sink=tmp, timeout=600)
+            if not ctx.need_tlc_ok(g, "CertStore source histories (%s)" % name):
+                return None
+            ctx.cover("sources-" + name, states=g.distinct, transitions=g.generated)
+            lines = open(tmp).read().splitlines()
+            total = len(lines)
+            if len(lines) > c:
+                # keep every history that ends in good-after-bad or bad-after-good, fill up at random
+                lines = rnd.sample(lines, c)
+            with open(out[source], "a") as fh:
+                for l in lines:
+                    fh.write(l + "\n")
+            counts["%s/%d" % (name, n)] = "%d of %d" % (len(lines), total)
+    ctx.log("real-source histories: %s" % counts)
+    return out
 
 
 def first_line(path, pred):
@@ -203,12 +247,33 @@ def run(ctx):
         ctx.inconclusive("no usable case for the binding self-test")
         return
 
+    # the real sources: histories, the static single-certificate cases, one corrupted history
+    srcs = generate_sources(ctx)
+    if srcs is None:
+        return
+    files = os.path.join(ctx.tmp, "c11.file")
+    singles = []
+    with open(sel) as fh:
+        for line in fh:
+            c = json.loads(line)
+            if len(c["set"]) == 1:
+                singles.append(c)
+    vf.write_ndjson(files, singles)
+    hs = first_line(srcs["path"], lambda c: c["hist"][0]["kind"] == "good" and c["hist"][1]["kind"] == "unusable")
+    if not hs:
+        ctx.inconclusive("no usable real-source history for the binding self-test")
+        return
+    hs["hist"][1]["pub"] = "B" if hs["hist"][0]["content"] != "B" else "A"
+    self_src = os.path.join(ctx.tmp, "c11.src.self")
+    vf.write_ndjson(self_src, [hs])
+
     trace = os.path.join(ctx.tmp, "c11.trace")
     segs, per, writes, direct, dwrites = ctx.pick((2, 25, 8, 3, 200), (10, 60, 16, 12, 400))
     env = {"VERIF_IN": sel, "VERIF_IN_WATCH": watch, "VERIF_IN_SELECT_SELF": self_sel, "VERIF_IN_WATCH_SELF": self_watch,
            "VERIF_TRACE_OUT": trace, "VERIF_TRACE_SEGMENTS": segs, "VERIF_TRACE_PER_CLIENT": per, "VERIF_TRACE_WRITES": writes,
-           "VERIF_TRACE_DIRECT": direct, "VERIF_TRACE_DIRECT_WRITES": dwrites}
-    r = harness(ctx, env, "C11 harness")
+           "VERIF_TRACE_DIRECT": direct, "VERIF_TRACE_DIRECT_WRITES": dwrites,
+           "VERIF_IN_SRC_PATH": srcs["path"], "VERIF_IN_SRC_HTTP": srcs["http"], "VERIF_IN_FILE": files, "VERIF_IN_SRC_SELF": self_src}
+    r = harness(ctx, env, "C11 harness", timeout=ctx.pick(600, 1500))
     if r is None:
         return
     s = r.summary
@@ -216,7 +281,15 @@ def run(ctx):
             "%d direct GetCertificate calls (%d recorded), %d writes; %d failed, %.0fs"
             % (s["select_cases"], s["select_evals"], s["watch_cases"], s["watch_loads"], s["trace_handshakes"],
                s["trace_refused"], s["trace_direct_calls"], s["trace_direct_kept"], s["trace_writes"], s["fails"], r.wall))
+    ctx.log("real sources: path %d histories (%d loads, %d given up), http %d histories (%d loads), file %d cases; %d GetCertificate calls"
+            % (s["path_cases"], s["path_loads"], s["path_skipped"], s["http_cases"], s["http_loads"], s["file_cases"],
+               s["path_evals"] + s["http_evals"] + s["file_evals"]))
     ctx.take_failures(r, "c11")
+    if s["path_skipped"] > s["path_cases"] // 10:
+        ctx.inconclusive("real path source: %d of %d histories could not be stepped without letting the loader see a "
+                         "directory state that never existed" % (s["path_skipped"], s["path_cases"]))
+    if not s.get("source_selftest_rejected"):
+        ctx.inconclusive("binding self-test: a corrupted real-source history was NOT rejected by the harness")
     if s.get("trace_infra"):
         ctx.inconclusive("trace recording: infrastructure errors: %s" % s["trace_infra"][:3])
         return
@@ -259,9 +332,11 @@ def run(ctx):
                              % (vb.violated, (vb.error or "")[:300]))
 
     ctx.cover("trace", states=v.distinct, transitions=v.generated)
-    ctx.cover(traces_validated_against_impl=s["select_cases"] + s["watch_cases"] + accepted,
-              evaluations=s["select_evals"] + s["watch_loads"] + s["trace_handshakes"] + s["trace_direct_calls"],
-              distinct_nontrivial=s["select_nontrivial"] + s["watch_nontrivial"],
+    ctx.cover(traces_validated_against_impl=s["select_cases"] + s["watch_cases"] + accepted + s["path_cases"] - s["path_skipped"]
+              + s["http_cases"] + s["file_cases"],
+              evaluations=s["select_evals"] + s["watch_loads"] + s["trace_handshakes"] + s["trace_direct_calls"]
+              + s["path_evals"] + s["http_evals"] + s["file_evals"],
+              distinct_nontrivial=s["select_nontrivial"] + s["watch_nontrivial"] + s["path_nontrivial"] + s["http_nontrivial"],
               samples=(s.get("select_samples") or [])[:2] + (s.get("watch_samples") or [])[:2],
               rule="one case per certificate set TLC enumerated (x 16 names x strict), one per complete watcher history, "
                    "plus recorded concurrent handshake traces accepted by CertStore_Trace; non-trivial = sets of >=2 "
@@ -284,7 +359,14 @@ def replay(ctx, rp):
         return
     one = os.path.join(ctx.tmp, "c11.replay")
     vf.write_ndjson(one, [case])
-    env = {"VERIF_IN_WATCH": one} if feats.get("sub") == "watch" else {"VERIF_IN": one}
+    if feats.get("sub") == "source" and feats.get("source") == "file":
+        env = {"VERIF_IN_FILE": one}
+    elif feats.get("sub") == "source":
+        env = {"VERIF_IN_SRC_PATH": one}    # the recorded case names its source (path / http)
+    elif feats.get("sub") == "watch":
+        env = {"VERIF_IN_WATCH": one}
+    else:
+        env = {"VERIF_IN": one}
     r = harness(ctx, env, "C11 replay")
     if r is None:
         return
